@@ -2,7 +2,6 @@ package main
 
 import (
 	"go/types"
-	"strings"
 
 	"golang.org/x/tools/go/ssa"
 )
@@ -201,9 +200,6 @@ func c03NoBuffering(a *An) {
 	nFns := 0
 	var all []string
 	for _, fn := range a.P.srcFuncs(a.P.Main) {
-		if strings.HasPrefix(fn.Name(), "zzCtl") {
-			continue
-		}
 		nFns++
 		all = append(all, eventBuffering(a, fn)...)
 	}
